@@ -478,6 +478,7 @@ func runC46(c *Ctx) {
 	// one goroutine per fn in a range over fns
 	var worker *ast.FuncLit
 	var waiter *ast.FuncLit
+	var keyVar, valVar *types.Var // captured per-iteration loop variables, when that form is used
 	ast.Inspect(al.Body, func(n ast.Node) bool {
 		gs, ok := n.(*ast.GoStmt)
 		if !ok {
@@ -491,8 +492,14 @@ func runC46(c *Ctx) {
 		ast.Inspect(al.Body, func(m ast.Node) bool {
 			if rs, ok := m.(*ast.RangeStmt); ok && al.Prov(rs.X) == "param#1" && containsNode(rs.Body, gs) {
 				inRange = true
-				// the goroutine receives the loop variables as arguments
+				// the goroutine receives the loop variables as arguments, or captures loop
+				// variables that are per-iteration (declared by the range with :=, in a module
+				// whose go directive is >= 1.22)
 				okArgs := len(gs.Call.Args) == 2 && al.varOf(gs.Call.Args[0]) == al.varOf(rs.Key) && al.varOf(gs.Call.Args[1]) == al.varOf(rs.Value)
+				if len(gs.Call.Args) == 0 && rs.Tok == token.DEFINE && perIterationLoopVars(al) {
+					okArgs = true
+					keyVar, valVar = al.varOf(rs.Key), al.varOf(rs.Value)
+				}
 				c.Ob("fanout", "All#goroutine-gets-its-own-index", gs.Pos(), okArgs, "each goroutine is handed its own index and function")
 			}
 			return true
@@ -529,17 +536,52 @@ func runC46(c *Ctx) {
 				continue
 			}
 			nw++
-			c.Ob("fanout", "All#worker-writes-only-its-slot:"+types_ExprString(ix.X), as.Pos(), w.Prov(ix.Index) == "lit.param#0", "a worker writes results/errors only at its own index parameter; found index "+w.Prov(ix.Index))
+			okIdx := w.Prov(ix.Index) == "lit.param#0" || keyVar != nil && w.varOf(ix.Index) == keyVar
+			c.Ob("fanout", "All#worker-writes-only-its-slot:"+types_ExprString(ix.X), as.Pos(), okIdx, "a worker writes results/errors only at its own index; found index "+w.Prov(ix.Index))
 		}
 		return true
 	})
 	c.Floor("worker slot writes", nw, 2)
+	nrun := 0
 	for _, call := range w.Calls(false, func(call *ast.CallExpr) bool {
 		id, ok := call.Fun.(*ast.Ident)
-		return ok && w.Prov(id) == "lit.param#1"
+		if !ok {
+			return false
+		}
+		g := w.enclosing(call)
+		return g.Prov(id) == "lit.param#1" || valVar != nil && (g.varOf(id) == valVar || g.Prov(id) == "param#1#1")
 	}) {
-		c.Ob("fanout", "All#worker-runs-its-function-with-ctx", call.Pos(), w.Prov(call.Args[0]) == "param#0", "the worker runs its own function with the caller's context")
+		nrun++
+		c.Ob("fanout", "All#worker-runs-its-function-with-ctx", call.Pos(), w.enclosing(call).Prov(call.Args[0]) == "param#0", "the worker runs its own function with the caller's context")
 	}
+	// ... or hands its function and the context to a helper that runs it
+	isFnVar := func(g *Fn, e ast.Expr) bool {
+		return g.Prov(e) == "lit.param#1" || valVar != nil && (g.varOf(e) == valVar || g.Prov(e) == "param#1#1")
+	}
+	for _, call := range w.Calls(false, func(call *ast.CallExpr) bool { return w.FnOfCallee(call) != nil }) {
+		g := w.enclosing(call)
+		h := w.FnOfCallee(call)
+		fi, ci := -1, -1
+		for i, a := range call.Args {
+			if isFnVar(g, a) {
+				fi = i
+			}
+			if g.Prov(a) == "param#0" {
+				ci = i
+			}
+		}
+		if fi < 0 {
+			continue
+		}
+		for _, inner := range h.Calls(false, func(ic *ast.CallExpr) bool {
+			id, ok := ic.Fun.(*ast.Ident)
+			return ok && h.Prov(id) == fmt.Sprintf("param#%d", fi)
+		}) {
+			nrun++
+			c.Ob("fanout", "All#worker-runs-its-function-with-ctx", call.Pos(), ci >= 0 && len(inner.Args) == 1 && h.Prov(inner.Args[0]) == fmt.Sprintf("param#%d", ci), "the worker runs its own function with the caller's context (through "+h.Name+")")
+		}
+	}
+	c.Floor("worker function invocations", nrun, 1)
 	g := al.Closure(waiter)
 	waits := methodCalls(g, false, "Wait")
 	closes := g.Calls(false, func(call *ast.CallExpr) bool {
@@ -556,11 +598,15 @@ func runC46(c *Ctx) {
 		}
 	}
 	c.Ob("fanout", "All#done-closed-after-Wait", waiter.Pos(), okClose, "done is closed only after every worker finished")
-	// every return preceded by a receive from done
+	// every return preceded by a receive from done - the channel the waiter closes
+	var doneVar *types.Var
+	if len(closes) == 1 && len(closes[0].Args) == 1 {
+		doneVar = g.varOf(closes[0].Args[0])
+	}
 	isRecvDone := func(n ast.Node) bool {
 		found := false
 		ast.Inspect(n, func(m ast.Node) bool {
-			if u, ok := m.(*ast.UnaryExpr); ok && u.Op == token.ARROW && strings.Contains(al.Prov(u.X), "builtin:make") && types_ExprString(u.X) == "done" {
+			if u, ok := m.(*ast.UnaryExpr); ok && u.Op == token.ARROW && strings.Contains(al.Prov(u.X), "builtin:make") && doneVar != nil && al.varOf(u.X) == doneVar {
 				found = true
 			}
 			return true
@@ -826,4 +872,21 @@ func runC47(c *Ctx) {
 	}
 	c.Floor("NetworkForVersion returns", nret, 3)
 	c.Ob("listen", "NetworkForVersion#mapping", nf.Decl.Pos(), got["IPV4"] == want["IPV4"] && got["IPV6"] == want["IPV6"] && defOK, fmt.Sprintf("V4 -> proto4, V6 -> proto6, default -> proto; found %v default=%v", got, defOK))
+}
+
+// perIterationLoopVars: the module's go directive is at least 1.22, so the variables a
+// `for ... := range` declares are fresh in every iteration (a closure started in the body
+// captures its own copy).
+func perIterationLoopVars(f *Fn) bool {
+	if f.Pkg == nil || f.Pkg.Module == nil {
+		return false
+	}
+	parts := strings.SplitN(f.Pkg.Module.GoVersion, ".", 3)
+	if len(parts) < 2 {
+		return false
+	}
+	var major, minor int
+	fmt.Sscanf(parts[0], "%d", &major)
+	fmt.Sscanf(parts[1], "%d", &minor)
+	return major > 1 || major == 1 && minor >= 22
 }
